@@ -16,12 +16,13 @@ var errFault = errors.New("injected read fault")
 
 // faultReader delivers data[:k] and then fails: once (then io.EOF) or forever.
 type faultReader struct {
-	data    []byte
-	pos     int
-	forever bool
-	failed  bool
-	chunk   int
-	calls   int
+	data     []byte
+	pos      int
+	forever  bool
+	failed   bool
+	chunk    int
+	calls    int
+	withData bool // deliver the last chunk TOGETHER with the error (n > 0, err != nil)
 }
 
 func (f *faultReader) Read(p []byte) (int, error) {
@@ -39,6 +40,10 @@ func (f *faultReader) Read(p []byte) (int, error) {
 		}
 		copy(p, f.data[f.pos:f.pos+n])
 		f.pos += n
+		if f.withData && f.pos >= len(f.data) {
+			f.failed = true
+			return n, errFault
+		}
 		return n, nil
 	}
 	if f.forever || !f.failed {
